@@ -311,6 +311,9 @@ func (s *Sys) Close() {
 		}
 		impureMu.Unlock()
 	}
+	if m := s.Core.VerifExpiration(); m != nil {
+		m.VerifStopTimers()
+	}
 	_ = s.Core.ShutdownWait()
 }
 
